@@ -83,8 +83,9 @@ type WorkItem struct {
 
 // WorkResult is a worker's answer.
 type WorkResult struct {
-	Stats *mc.Stats   `json:"stats"`
-	Enum  *EnumResult `json:"enum,omitempty"`
+	Stats   *mc.Stats   `json:"stats"`
+	Enum    *EnumResult `json:"enum,omitempty"`
+	Tainted bool        `json:"tainted,omitempty"`
 }
 
 // Registry of checks, filled by package checks.
@@ -120,7 +121,7 @@ func Worker() {
 				cur.Truncate(0)
 				cur.WriteAt(b, 0)
 			})
-			b, _ := json.Marshal(WorkResult{Enum: r})
+			b, _ := json.Marshal(WorkResult{Enum: r, Tainted: mc.Tainted})
 			out.Write(b)
 			out.WriteByte('\n')
 			out.Flush()
@@ -143,7 +144,7 @@ func Worker() {
 				return false
 			}}
 		e.Explore(it.Prefix, it.Devs)
-		b, _ := json.Marshal(WorkResult{Stats: st})
+		b, _ := json.Marshal(WorkResult{Stats: st, Tainted: mc.Tainted})
 		out.Write(b)
 		out.WriteByte('\n')
 		out.Flush()
@@ -487,6 +488,10 @@ func runEnumPar(c *Check, tier string, deadline time.Time) *EnumResult {
 					}
 					var r WorkResult
 					json.Unmarshal(line, &r)
+					if r.Tainted {
+						w.stop()
+						w = nil
+					}
 					mu.Lock()
 					if r.Enum != nil {
 						total.Evaluations += r.Enum.Evaluations
@@ -638,6 +643,10 @@ func runScenarios(c *Check, tier string, scs []*mc.Scenario, deadline time.Time,
 				}
 				var r WorkResult
 				json.Unmarshal(line, &r)
+				if r.Tainted {
+					w.stop()
+					w = nil
+				}
 				mu.Lock()
 				cur[j.sc].Merge(r.Stats)
 				if !r.Stats.Complete {
